@@ -45,6 +45,9 @@ class TcpclWorld(World):
         else:
             conn = vnet.StreamConn('c0')
         conn.sent_log = []
+        if prm.get('pipe'):
+            # each direction holds at most this many octets in flight (socket buffers of a slow path)
+            conn.capacity = prm['pipe']
         self.conns.append(conn)
         for (idx, side) in enumerate(SIDES):
             ns = _env.load_tcpcl(side)
